@@ -71,6 +71,10 @@ const COMPOSITE: &[&str] = &[
     "[.[] | . * 2]", "{a: .}", "{(.): 1}", "{a: .a}", "{a}", "{\"a\": 1, \"b\": .}", "{a: (1, 2)}", "{(\"a\", \"b\"): 1}", "{a: .[]?}", "{\"x\\(.)\": 1}", "{$__loc__}", "[., .]", "[.[]?]", "[..]", "[.[]?, 1]", "[]", "{}", "[empty]", "[.[]? | select(. != null)]", "[.[] | values]",
     "\"a\\(.)\"", "\"\\(.)\"", "\"\\(1 + 2)\\(.)\"", "@json \"x\\(.)\"", "@text \"\\(.)\"", "@base64 \"\\(.)\"", "@csv \"\\(.)\"", "@html \"<\\(.)>\"", "@uri \"?q=\\(.)\"", "@sh \"echo \\(.)\"",
     "to_entries | from_entries", "tojson | fromjson", "tojson|fromjson|tojson", "tojson|length", "keys|length", "length|tostring", "ascii_downcase|ascii_upcase", "ltrimstr(\"a\")|rtrimstr(\"a\")", "trunc|tostring", "[.[]|tostring]", "[.[]|tojson]", "[.[]|type]", "map(select(.))", "[.[]|numbers]", "..|numbers", "[..|strings]", "[.[]?|length]", "map(length)", "map(type)", "map(keys)", "map(.a?)", "map(.[0]?)", "map(tostring)", "map(tojson)", "keys_unsorted|map(.)", "keys|map(.)", "keys_unsorted|length", "keys_unsorted|first", "keys_unsorted|.[0]", "keys|.[0]", "keys|last", "keys_unsorted|.[]", "map(.)|map(.)", "map(.+1)|map(.*2)", "map(error(\"m\"))", "map(., .)", "map(empty)", "map(select(. == 1))", "[.[]|.a?]",
+    // slices whose bounds are *computed* (not literal integers) take a different code path from static slices:
+    // negative / fractional / length-derived bounds, on arrays and on strings with multi-byte characters
+    ".[(0-1):]", ".[:(0-1)]", ".[(0-2):(0-1)]", ".[(0-3):]?", ".[-1.5:]", ".[:-1.5]", ".[(1):]", ".[:(2)]", ".[(length-1):]?", ".[(length/2|floor):]?",
+    ".[-(1):]", ".[(1,2):]", ".[:(1,-1)]", ".[(0-1):] = [9]", "del(.[(0-1):])", "path(.[(0-1):])", ".a[(0-1):]?", "\"h\u{e9}llo w\u{f6}rld\u{1f600}\" | .[(0-3):]", "\"h\u{e9}llo\" | .[:(0-2)]",
     "(.a, .b)", ".[\"a\",\"b\"]?", ".[0,1]?", ".[\"a\"]?", ".[null]", ".[\"a\":]?", ".[1.5]?", ".[-5]?", ".[5]", ".[1e17]?", ".[:2.5]?", ".[null:2]?", ".[.[0]?]?", ".a.b.c?", ".a[1:]?", "..?", ".[]?.a?", ".[0][0]?", ".a[\"b\"]?",
     ".a = 1", ".a |= 2", ".[0] = 1", ".[] |= 1", ".a += 1", ".a -= 1", ".a *= 2", ".a /= 2", ".a %= 2", ".a //= 3", ".[0] += 1", ".[]? += 1", ".a.b = 1", ".a.b |= 1", ".[1:] = [9]", ".[5] = 1", ".[-1] = 9", ".[-9] = 9", ".a = (1, 2)", "(.a, .b) = 1", "(.a, .b) |= 1", ".[] |= empty", ".a |= empty", ".. = 1", ".. |= .", ".[0] |= . + 1", "(.[] | select(. == 2)) = 20", "(.[]? | select(type == \"number\")) |= . + 1", ".a = .b", ".a |= .b?", ". = 1", ". |= 2", "to_entries |= .", ".[\"a\"] = 1", "getpath([\"a\"]) = 3", "first(.[]?) = 7", "paths = 1", "(.a | .b) = 1", ".a[0] = 1", ".a[1:] = [5]", "del(.a, .b)", "del(.[0, 1])", "del(.a.b)", "del(..)", "del(.)", "del(.[]?|select(. == 1))", "del(.[-1])", "del(.a[0])", "delpaths([paths])", "delpaths([[]])", "to_entries",
     "#secondary",
